@@ -49,9 +49,9 @@ def csvq(s, sep=","):
 def make_doc(r):
     """Returns (flags, text bytes, format name)."""
     fmt = r.choice(["csv", "csv", "csvlite", "tsv", "json", "json", "jsonl", "dkvp", "nidx", "xtab", "pprint", "pprint_barred", "markdown", "usv", "asv",
-                    "yaml", "recutils", "dcf", "csv_opts", "dkvp_opts", "nidx_opts"])
+                    "yaml", "recutils", "dcf", "csv_opts", "dkvp_opts", "nidx_opts", "dkvpx", "dkvpx", "pprint_barred", "tsv", "csvlite"])
     n = r.choice([1, 2, 3, 6, 15])
-    safe = fmt not in ("csv", "json", "jsonl", "csv_opts", "yaml")
+    safe = fmt not in ("csv", "json", "jsonl", "csv_opts", "yaml", "dkvpx")
     recs = records(r, n, safe)
     flags = []
     if fmt in ("csv", "csv_opts", "csvlite"):
@@ -83,6 +83,12 @@ def make_doc(r):
             text = "\ufeff" + text
         if r.chance(0.15):
             text = text.replace("\n", "\r\n")
+    elif fmt == "dkvpx":
+        flags = ["-i", "dkvpx"]
+        q = lambda v: ("\"" + v.replace("\"", "\"\"") + "\"") if any(c in v for c in ",=\"\n ") or v == "" else v
+        text = "".join(",".join("%s=%s" % (q(k), q(v)) for k, v in rec) + "\n" for rec in recs)
+        if r.chance(0.3):
+            text = text[:-1]
     elif fmt == "tsv":
         flags = ["--itsv"]
         enc = lambda s: s.replace("\\", "\\\\").replace("\t", "\\t").replace("\n", "\\n")
@@ -148,6 +154,9 @@ def make_doc(r):
     else:  # recutils / dcf
         flags = ["--irecutils"] if fmt == "recutils" else ["--idcf"]
         text = "\n".join("".join("%s: %s\n" % (k, v or "x") for k, v in rec) for rec in recs)
+    if fmt in ("pprint", "pprint_barred", "tsv", "csvlite", "markdown", "usv", "asv", "nidx", "xtab") and r.chance(0.4):
+        flags = flags + [r.choice(["--implicit-csv-header", "--allow-ragged-csv-input", "--implicit-tsv-header",
+                                   "--pass-comments", "--skip-comments", "--no-dedupe-field-names", "--repifs", "--lazy-quotes", "-S", "-A", "-O"])]
     return flags, text.encode("utf-8"), fmt
 
 
